@@ -190,7 +190,7 @@ def run(ctx):
     else:
         for n in range(1, 7):
             for kind in (kinds if not ctx.quick else (kinds if n <= 4 else ['dense', 'unit_v', 'sparse'])):
-                for rep in range(ctx.pick(2, 4)):
+                for rep in range(ctx.pick(2, 8)):
                     paths = [True] + ([False] if n >= 4 else [])
                     cases.append(dict(t='mol', n=n, spin=False, kind=kind, paths=paths, tlc=bool(n <= 4 and rep == 0 and kind in ('dense', 'gauss', 'unit_v', 'sparse', 'symmetric')),
                                       seed=int(rng.integers(1 << 30))))
